@@ -46,8 +46,11 @@ func NewCompositeSequenceDFA(re *syntax.Regexp) *CompositeSequenceDFA {
 	// maxMatch=1, or \w{2,8}) requires counting characters per part, which
 	// the DFA doesn't support — fall back to CompositeSearcher backtracking.
 	for _, p := range parts {
-		if p.minMatch == 0 {
-			return nil // Star quantifiers need more complex handling
+		if p.minMatch != 1 {
+			// 0: star quantifiers need more complex handling; 2 and more
+			// ({2,}): the automaton only remembers whether a part has been
+			// entered, it does not count
+			return nil
 		}
 		if p.maxMatch > 0 {
 			return nil // Bounded max requires character counting
@@ -416,7 +419,7 @@ func IsCompositeSequenceDFAPattern(re *syntax.Regexp) bool {
 
 	// Check all parts have minMatch >= 1 and maxMatch == 0 (unbounded)
 	for _, p := range parts {
-		if p.minMatch == 0 {
+		if p.minMatch != 1 {
 			return false
 		}
 		if p.maxMatch > 0 {
